@@ -418,6 +418,8 @@ class Unit:
         arr = out.arr
         ex.hyps.append(FAll("k", 0, it.length,
                             lambda c: FT(z3.Select(arr, c) == ex.z(elem(c))), "comprehension"))
+        # a map keeps positions: the index map of a filtered source list is also the index map of the mapped list
+        out.filter_of = getattr(it, "filter_of", None)
         return out
 
     def sym_filter(self, ex, n, g, it: VList):
@@ -426,8 +428,14 @@ class Unit:
           for k < len(out):  0 <= idx(k) < len(xs), idx strictly increasing, out[k] == xs[idx(k)], c(out[k])
           for j < len(xs):   c(xs[j])  ->  0 <= inv(j) < len(out) and idx(inv(j)) == j
         which is the meaning of a filter (order and multiplicity kept, nothing kept that fails c, nothing dropped that passes)."""
-        if not (isinstance(n.elt, ast.Name) and isinstance(g.target, ast.Name) and n.elt.id == g.target.id):
-            raise GenError("filtered comprehension with a mapped element over a symbolic list")
+        if not isinstance(g.target, ast.Name):
+            raise GenError("filtered comprehension with a tuple target over a symbolic list")
+        if not (isinstance(n.elt, ast.Name) and n.elt.id == g.target.id):
+            # [f(x) for x in xs if c(x)]  ==  [f(x) for x in [x for x in xs if c(x)]]
+            ident = ast.ListComp(elt=ast.Name(id=g.target.id, ctx=ast.Load()), generators=[g])
+            flt = self.sym_filter(ex, ident, g, it)
+            g2 = ast.comprehension(target=g.target, iter=g.iter, ifs=[], is_async=0)
+            return self.sym_comprehension(ex, ast.ListComp(elt=n.elt, generators=[g2]), g2, flt)
         envs = ex.snapshot_envs()
         ek = it.elem if isinstance(it.elem, str) else "tuple[%s]" % ",".join(it.elem)
         out = ex.fresh("list[%s]" % ek, "filtered")
